@@ -60,6 +60,7 @@ def run_valid(spec):
         # escaping the reader that merely logged its message first is not how the reader rejects inputs
         if kind == "rejected:read" and sig:
             o.fail("reader_exception_on_generated_input:" + sig, detail)
+    o.checks += 1
     o.nontrivial = kind == "swept"
     return o
 
@@ -233,6 +234,7 @@ def run_fault(spec):
         o.classes["rejected_at"] = e.stage
     except drive.Crashed as e:
         o.fail("invalid_input_crashes:%s:%s@%s" % (fault, e.exc_type, e.where), str(e)[:300])
+    o.checks += 1
     o.nontrivial = True
     return o
 
@@ -294,6 +296,7 @@ def run_fuzz(spec):
         except drive.Crashed as e:
             # malformed text is outside the classes the property lists: recorded, not asserted
             o.classes["outcome"] = "reader_exception:" + e.exc_type
+        o.checks += 1
         o.nontrivial = lines != orig
     return o
 
